@@ -960,4 +960,76 @@ fn process_pending_worker(""")),
     }
 
     pub fn pop_early_terminations<BS: Blockstore>("""), expect=None),
+
+ # ---------------- C17 (structural clause of instruction semantics)
+ dict(id='C17-sub-swapped', pid='C17', file='actors/evm/src/interpreter/instructions/arithmetic.rs', old="""    a.overflowing_sub(b).0""", new="""    b.overflowing_sub(a).0""", expect=r'semantics:SUB:wsub'),
+ dict(id='C17-slt-unsigned', pid='C17', file='actors/evm/src/interpreter/instructions/boolean.rs', old="""    U256::from_u64((a.i256_cmp(&b) == Ordering::Less).into())""", new="""    U256::from_u64((a.cmp(&b) == Ordering::Less).into())""", expect=r'semantics:SLT:scmp'),
+ dict(id='C17-sgt-as-sge', pid='C17', file='actors/evm/src/interpreter/instructions/boolean.rs', old="""    U256::from_u64((a.i256_cmp(&b) == Ordering::Greater).into())""", new="""    U256::from_u64((a.i256_cmp(&b) != Ordering::Less).into())""", expect=r'semantics:SGT:ordeq'),
+ dict(id='C17-addmod-narrow', pid='C17', file='actors/evm/src/interpreter/instructions/arithmetic.rs', old="""        ((al + bl) % cl).low_u256()
+    } else {
+        c
+    }
+}
+
+#[inline]
+pub fn mulmod""", new="""        let _ = (al, bl);
+        (U512::from(a.overflowing_add(b).0) % cl).low_u256()
+    } else {
+        c
+    }
+}
+
+#[inline]
+pub fn mulmod""", expect=r'semantics:ADDMOD:(add512|no-other)'),
+ dict(id='C17-shr-bound-off', pid='C17', file='actors/evm/src/interpreter/instructions/bitwise.rs', old="""    if value.is_zero() || shift >= 256 { U256::ZERO } else { value >> shift }""", new="""    if value.is_zero() || shift > 256 { U256::ZERO } else { value >> shift }""", expect=r'semantics:SHR:shift'),
+ dict(id='C17-byte-little-endian', pid='C17', file='actors/evm/src/interpreter/instructions/bitwise.rs', old="""x.byte(31 - i.low_u64() as usize)""", new="""x.byte(i.low_u64() as usize)""", expect=r'semantics:BYTE'),
+ dict(id='C17-sdiv-sign-of-dividend', pid='C17', file='actors/evm/shared/src/uints.rs', old="""        if d.is_zero() || first_neg == second_neg { d } else { d.i256_neg() }""", new="""        if d.is_zero() || !first_neg { d } else { d.i256_neg() }""", expect=r'signed:i256_div:negate'),
+ dict(id='C17-smod-sign-of-divisor', pid='C17', file='actors/evm/shared/src/uints.rs', old="""        let negative = first.i256_is_negative();
+        if negative {
+            first = first.i256_neg();
+        }
+
+        if second.i256_is_negative() {
+            second = second.i256_neg()
+        }""", new="""        if first.i256_is_negative() {
+            first = first.i256_neg();
+        }
+
+        let negative = second.i256_is_negative();
+        if negative {
+            second = second.i256_neg()
+        }""", expect=r'signed:i256_mod:sign'),
+ dict(id='C17-scmp-sign-flipped', pid='C17', file='actors/evm/shared/src/uints.rs', old="""        match other.i256_is_negative().cmp(&self.i256_is_negative()) {""", new="""        match self.i256_is_negative().cmp(&other.i256_is_negative()) {""", expect=r'signed:i256_cmp:order'),
+ dict(id='C17-codecopy-size-offset-swapped', pid='C17', file='actors/evm/src/interpreter/instructions/call.rs', old="""    copy_to_memory(&mut state.memory, mem_index, size, input_index, code, true)""", new="""    copy_to_memory(&mut state.memory, mem_index, input_index, size, code, true)""", expect=r'role:CODECOPY'),
+ dict(id='C17-mstore8-offset-from-value', pid='C17', file='actors/evm/src/interpreter/instructions/memory.rs', old="""    let region = get_memory_region(&mut state.memory, index, 1)?.expect("empty region");
+
+    let value = (value.low_u32() & 0xff) as u8;""", new="""    let region = get_memory_region(&mut state.memory, value, 1)?.expect("empty region");
+
+    let value = (index.low_u32() & 0xff) as u8;""", expect=r'role:MSTORE8'),
+ dict(id='C17-mcopy-reversed', pid='C17', file='actors/evm/src/interpreter/instructions/memory.rs', old="""    let source_range = src_region.offset..(src_region.offset + src_region.size.get());
+    let destination_index = destination_region.offset;""", new="""    let source_range =
+        destination_region.offset..(destination_region.offset + destination_region.size.get());
+    let destination_index = src_region.offset;""", expect=r'role:mcopy:direction'),
+ dict(id='C17-revert-as-return', pid='C17', file='actors/evm/src/interpreter/instructions/control.rs', old="""    exit(&mut state.memory, pc, offset, size, Outcome::Revert)""", new="""    exit(&mut state.memory, pc, offset, size, Outcome::Return)""", expect=r'role:REVERT:outcome'),
+ dict(id='C17-tload-persistent', pid='C17', file='actors/evm/src/interpreter/instructions/storage.rs', old="""    system.get_transient_storage(location)""", new="""    system.get_storage(location)""", expect=r'role:TLOAD'),
+ dict(id='C17-operands-not-reversed', pid='C17', file='actors/evm/src/interpreter/instructions/mod.rs', old="""    ($op:ident ($($arg:ident),+) => $impl:path) => {
+        def_op!{ $op (m) => {
+            let &rev![$($arg),*] = m.state.stack.pop_many()?;
+            let result = $impl($($arg),*);""", new="""    ($op:ident ($($arg:ident),+) => $impl:path) => {
+        def_op!{ $op (m) => {
+            let &[$($arg),*] = m.state.stack.pop_many()?;
+            let result = $impl($($arg),*);""", expect=r'binding:SUB'),
+ dict(id='C17-returndatacopy-end-unchecked', pid='C17', file='actors/evm/src/interpreter/instructions/control.rs', old="""    if end > state.return_data.len() {""", new="""    if src > state.return_data.len() {""", expect=r'role:RETURNDATACOPY:end'),
+ dict(id='C17-jumpi-dest-cond-swapped', pid='C17', file='actors/evm/src/interpreter/instructions/control.rs', old="""    if !test.is_zero() {
+        let dst =
+            dest.try_into()""", new="""    if !dest.is_zero() {
+        let dst =
+            test.try_into()""", expect=r'role:JUMPI'),
+ dict(id='R-C17-div-arms-respelled', pid='C17', file='actors/evm/src/interpreter/instructions/arithmetic.rs', old="""    if !b.is_zero() { a / b } else { b }""", new="""    if b.is_zero() {
+        return U256::ZERO;
+    }
+    a / b""", expect=None),
+ dict(id='R-C17-gt-respelled-mstore8-cast', pid='C17', file='actors/evm/src/interpreter/instructions/boolean.rs', old="""    U256::from_u64((a > b).into())""", new="""    let greater = b < a;
+    U256::from_u64(greater.into())""", expect=None,
+      extra=('actors/evm/src/interpreter/instructions/memory.rs', """    let value = (value.low_u32() & 0xff) as u8;""", """    let value = value.low_u32() as u8;""")),
 ]
